@@ -5,6 +5,7 @@ import Driver.Gen
 import Driver.Parse
 import Driver.Proc
 import Driver.Fill
+import Driver.Pipe
 
 /-!
 Line-protocol driver: one case per input line, `tag \t fields… \t observed`, one answer per line,
@@ -20,6 +21,7 @@ def dispatch (line : String) : String :=
   | "netparse" :: rest => (handleNetParse rest).getD "BAD-CASE\t0"
   | "proc" :: rest => (handleProc rest).getD "BAD-CASE\t0"
   | "fill" :: rest => (handleFill rest).getD "BAD-CASE\t0"
+  | "pipe" :: rest => (handlePipe rest).getD "BAD-CASE\t0"
   | "pports" :: rest => (handlePPorts rest).getD "BAD-CASE\t0"
   | "prate" :: rest => (handlePRate rest).getD "BAD-CASE\t0"
   | "ppayload" :: rest => (handlePPayload rest).getD "BAD-CASE\t0"
